@@ -256,8 +256,23 @@ fn conv_raw_to_proto_large(src: &mut Src) -> Result<(String, usize), String> {
 fn conv_gds_to_raw(src: &mut Src) -> Result<(String, usize), String> {
     let mut m = crate::props::c06::gen_lib(src);
     crate::props::c06::add_conflicting_labels(src, &mut m);
-    let g = crate::props::c06::to_gds(&m);
+    let mut g = crate::props::c06::to_gds(&m);
     let nstructs = g.structs.len();
+    // now and then the library places structs it does not define (a pad ring referring to a vendor library):
+    // whatever the importer does with them - refuse, as it does now, or stand in empty cells - must not vary
+    if !g.structs.is_empty() && src.prob(1, 8) {
+        let n = src.usize_in(2, 6);
+        let si = src.index(g.structs.len());
+        for k in 0..n {
+            let name = format!("vendor_pad_{}", (b'a' + ((k * 7 + si) % 26) as u8) as char);
+            let xy = gds21::GdsPoint::new(10 * k as i32, -3);
+            if k % 3 == 2 {
+                g.structs[si].elems.push(gds21::GdsElement::GdsArrayRef(gds21::GdsArrayRef { name, xy: [xy.clone(), gds21::GdsPoint::new(xy.x + 20, xy.y), gds21::GdsPoint::new(xy.x, xy.y + 20)], cols: 2, rows: 2, ..Default::default() }));
+            } else {
+                g.structs[si].elems.push(gds21::GdsElement::GdsStructRef(gds21::GdsStructRef { name, xy, ..Default::default() }));
+            }
+        }
+    }
     // one import in three goes into a layer set provided by the caller, in which two named layers share a
     // number and a datatype (a metal and its via drawn on one GDSII layer), or a name is given twice
     let provided = if src.prob(1, 3) {
